@@ -4,23 +4,6 @@ namespace Solvor.Graph
 
 /-! ### a finite set in which everybody has a predecessor contains a cycle -/
 
-theorem countP_lt_of_imp {S : List Nat} {P Q : Nat → Bool} (himp : ∀ y ∈ S, P y = true → Q y = true)
-    (hz : ∃ z ∈ S, Q z = true ∧ P z = false) : S.countP P < S.countP Q := by
-  induction S with
-  | nil => obtain ⟨z, hz, _⟩ := hz; cases hz
-  | cons a t ih =>
-    rw [List.countP_cons, List.countP_cons]
-    obtain ⟨z, hzm, hq, hp⟩ := hz
-    have himp' : ∀ y ∈ t, P y = true → Q y = true := fun y hy => himp y (List.mem_cons_of_mem _ hy)
-    have hle : t.countP P ≤ t.countP Q := List.countP_mono_left himp'
-    rcases List.mem_cons.1 hzm with rfl | hzt
-    · simp [hq, hp]; omega
-    · have := ih himp' ⟨z, hzt, hq, hp⟩
-      have ha := himp a List.mem_cons_self
-      by_cases hpa : P a = true
-      · simp [hpa, ha hpa]; omega
-      · simp [hpa]; split <;> omega
-
 open Classical in
 theorem exists_cycle_of_pred_closed {adj : Adj} {S : List Nat} (hne : S ≠ [])
     (hp : ∀ x ∈ S, ∃ p ∈ S, x ∈ adj p) : ∃ v ∈ S, OnCycle adj v := by
